@@ -134,7 +134,7 @@ def run_case(ck, paths, idx, big):
 def run(ck, tier):
     paths = build("asan")
     sc = getattr(ck, "scale", 1.0)
-    nsmall, nbig = (40, 5) if tier == "quick" else (900, 70)
+    nsmall, nbig = (80, 8) if tier == "quick" else (900, 70)
     jobs = [(i, False) for i in range(int(nsmall * sc))] + [(100000 + i, True) for i in range(int(nbig * sc))]
     common.pmap(lambda j: run_case(ck, paths, j[0], j[1]), jobs, workers=10)
     ck.rule = ("uniquely named record sets full of sort ties (all sequences of equal length, groups of equal length, duplicates under different names; names "
